@@ -240,7 +240,53 @@ def header_stream(tier, rng):
     return {"names": len(names), "diffs": diffs, "oracle": oracle, "bad_fold": bad_fold, "bad_quote": bad_quote}
 
 
+def replay(chk, data):
+    """a recorded history (the operation lines of a status violation) against the real queue and the real status command."""
+    from mwlib.core import nserve
+
+    from . import qsim
+
+    lines = [ln for ln in data.get("history", []) if not ln.startswith("status ")]
+    if not lines:
+        print("replay: the file holds no history (a broken proof or correspondence); rerun the check: " + str(data.get("rerun", "")))
+        return
+    qsim.IDMAP = {"n1": f"{CID}:makezip", "n2": f"{CID}:render-rl", "n3": f"{CID}:render-odf", "n4": f"{CID}:render-xhtml"}
+    qsim.IDINV = {v: k for k, v in qsim.IDMAP.items()}
+    qsim.RESENC, qsim.RESDEC = res_enc, res_dec
+    sim = qsim.Sim()
+    app = nserve.Application()
+    app.qserve = Proxy(sim)
+    ended = {}
+    try:
+        for n, line in enumerate(lines):
+            sim.op(line)
+            for jb in sim.workq.id2job.values():
+                if jb.done and jb.serial not in ended:
+                    ended[jb.serial] = (jb.error, n + 1)
+            for w in WRITERS:
+                d = app.do_render_status(CID, {"writer": w}, False)
+                why = status_oracle(sim, w, d)
+                jb = sim.workq.id2job.get(f"{CID}:render-{w}")
+                if not why and jb is not None and jb.serial in ended:
+                    err, step = ended[jb.serial]
+                    st = d.get("state")
+                    if err and st != "failed":
+                        why = f"the render job of writer {w} ended with error {err!r} at step {step}, the status now says {st!r}"
+                    elif not err and st != "finished":
+                        why = f"the render job of writer {w} ended without error at step {step}, the status now says {st!r}"
+                if why:
+                    chk.violation("status command unfaithful: " + why, {"kind": "impl-oracle", "history": lines[:n + 1], "writer": w, "why": why, "reply": d},
+                                  sig={"kind": "status", "why": why[:30]})
+                    return
+    finally:
+        sim.close()
+    print("replay: the status command is faithful along this history")
+
+
 def run(chk: common.Check):
+    if chk.replay:
+        replay(chk, json.load(open(chk.replay)))
+        return
     tier = chk.tier
     res = common.lean_prove(PROP_MODULES, tier)
     trusted = qs_common.QS_TRUSTED + [
